@@ -19,6 +19,9 @@ CLAIMED = {
  "C03": dict(level="proof", design="3/C03", tech="global value numbering with polynomial normal form over inlined LLVM IR (address identities, boolean polynomials for comparisons)",
    text="For every view kind, the cell reached through each navigation path (view(point), row/col iterators, x_at/y_at/xy_at, locator arithmetic, cached locations, axis iterators, in-place moves) has the same polynomial normal form as view(x,y) shifted by the offset; the polynomial random-access laws, the mutual mirroring of the ordering operators, their agreement with the direction of travel for positive and negative steps, and is_1d_traversable <=> row bytes == width*step are decided the same way, for all shapes, strides and offsets at once.",
    note="Trusted: clang front end, LLVM inliner/SROA/mem2reg, harness/ir/poly.py. Assumes non-zero iterator steps and that relationally compared pointers lie in one object. Not decided: row carry of iterator_from_2d for arbitrary offsets (begin()[n], at(x,y), end()-begin()), bit-offset carries as values (C08), reverse iterators."),
+ "C08": dict(level="proof", design="3/C08", tech="bit-provenance abstract interpretation over inlined LLVM IR",
+   text="Every write/read primitive of packed_channel_reference, packed_dynamic_channel_reference, packed_pixel and bit_aligned_pixel_reference (all carrier widths, first bits, channel widths, all 8 bit offsets) is interpreted in a domain where each stored bit is 0, 1, a copy of a named input bit or unknown; the resulting byte maps must equal the map computed from the template constants: channel bits <- value bits in order, every other bit its own previous value; get() returns exactly the channel bits. This covers all 2^k carrier contents and values at once, where the tests use one background and one value.",
+   note="Trusted: clang front end, LLVM inliner/SROA/mem2reg, harness/ir/bits.py, little-endian target. Precondition: assigned value <= max. Not decided: modular values of ++/--/+= (only confinement to the channel's bits), bit-aligned iterator +n/-n value laws and distances (carry arithmetic over runtime n)."),
 }
 NA_REASON = {
  "C19": "sums over hash-map contents filled in data-dependent loops; no static domain in reach relates container contents to pixel counts (DESIGN 3/C19)",
